@@ -151,9 +151,13 @@ Par ==
         [names |-> {"A", "I", "K", "Z"}, blobs |-> {"s32", "s64", "h2048", "h2049", "h4096", "x5000", "mbrok", "f12", "f144", "f288"}, dirs |-> {"D", "Y"},
          boot |-> {Plain, Iso4, Iso4Bit, PlainBit, EfiSec, EfiNB, BS("noemul", 1, TRUE, TRUE, FALSE, 1, 0),
                    BS("noemul", 8, FALSE, FALSE, FALSE, 2, 0), BS("noemul", 0, TRUE, TRUE, TRUE, 239, 0),
-                   BS("floppy", 0, TRUE, FALSE, FALSE, 0, 0), BS("floppy", 0, TRUE, TRUE, FALSE, 0, 0),
+                   BS("floppy", 0, TRUE, FALSE, FALSE, 0, 0),
                    BS("hdemul", 0, TRUE, FALSE, FALSE, 0, 0), BS("hdemul", 0, TRUE, TRUE, FALSE, 0, 0)},
          hyb |-> {}, scopes |-> {"all", "iso"}, prefixes |-> {<<>>}, maxent |-> 8, maxfiles |-> 4]
+    [] Profile = "c11f" ->     \* the three diskette sizes, with and without boot info table (exhaustive, small)
+        [names |-> {"I"}, blobs |-> {"f12", "f144", "f288"}, dirs |-> {"D"},
+         boot |-> {BS("floppy", 0, TRUE, FALSE, FALSE, 0, 0), BS("floppy", 0, FALSE, TRUE, FALSE, 1, 0)},
+         hyb |-> {}, scopes |-> {"all"}, prefixes |-> {<<>>}, maxent |-> 2, maxfiles |-> 1]
     [] Profile = "c11n" ->     \* many sections: 1..32 entries and the refusal of the 33rd
         [names |-> {"I", "K"}, blobs |-> {"h2049", "s32"}, dirs |-> {},
          boot |-> {Plain, BS("noemul", 0, TRUE, TRUE, TRUE, 0, 0)},
